@@ -3,6 +3,7 @@ Histories: the view invariant along every history of the class of `ryw_partial`,
 every read-type call through the cache or a child view.
 -/
 import Goat.Proofs.CacheRead
+import Goat.Proofs.CacheCopy
 
 namespace Goat
 namespace Cache
@@ -113,6 +114,14 @@ theorem step_eq_cachePath {h : Handle} {b : List Name}
   · exact ⟨fun d => step_sub_writeFile _ raw d p s hn, fun cs => step_sub_writer _ raw cs p s hn,
       step_sub_mkdirAll _ raw p s hn, step_sub_remove _ raw p s hn, step_sub_removeAll _ raw p s hn⟩
 
+theorem step_eq_copyFile {h : Handle} {b : List Name}
+    (hs : h = .cache ∧ b = [] ∨ ∃ base0, h = .sub (base0 ++ [slash]) ∧ norm (base0 ++ [slash]) = some b)
+    (s : State) (rs rd : Bytes) (ps pd : List Name) (hns : norm rs = some ps) (hnd : norm rd = some pd) :
+    step h s (.copyFile rs rd) = copyFile s (cachePath h ps rs) (cachePath h pd rd) := by
+  rcases hs with ⟨rfl, rfl⟩ | ⟨base0, rfl, hb⟩
+  · rfl
+  · simp [step, subOp, reduceAbsPath_of_norm hns, reduceAbsPath_of_norm hnd, stepCache, cachePath]
+
 /-- the remote-side condition of `removesBufferOnly`, for one call -/
 def bufferOnlyAt (remote : Node) (h : Handle) (op : Op) : Bool :=
   match cacheOp h op with
@@ -210,6 +219,21 @@ theorem vinv_step {s : State} {D : Node} (V : VInv s D) (h : Handle) (op : Op)
         | none => rfl
         | some e => simp [h'] at honly
       exact vinv_removeAll V (cachePath h p raw) (b ++ p) hnc hpre hr hD' hpost
+  | copyFile rs rd =>
+    simp only [FS.Step] at hstep
+    cases hns : norm rs with
+    | none => rw [hns] at hstep; simp only [] at hstep; rw [hstep.1] at hdir; cases hdir
+    | some ps =>
+      cases hnd : norm rd with
+      | none => rw [hns, hnd] at hstep; simp only [] at hstep; rw [hstep.1] at hdir; cases hdir
+      | some pd =>
+        rw [hns, hnd] at hstep
+        simp only [] at hstep
+        obtain ⟨hpre, hpost⟩ := mut_ok hstep hdir
+        rw [step_eq_copyFile hshape s rs rd ps pd hns hnd]
+        obtain ⟨d0, h1, h2, _⟩ := vinv_copyFile V (cachePath h ps rs) (cachePath h pd rd) (b ++ ps) (b ++ pd)
+          (norm_cachePath hshape rs ps hns) (norm_cachePath hshape rd pd hnd) hpre hD' hpost
+        exact ⟨h1, h2⟩
   | _ => simp [rywClass, writeClass] at hc
 
 /-! ### whole histories -/
